@@ -69,16 +69,15 @@ Inductive owner := OMain | OUser | OMon.
    M0 before mu.Lock; M1 locked, about to spawn; M2 in cmd.Wait before the direct child is reaped;
    M3 reaped, waiting for the pipes; M4 cmd.Run returned; MDone returned. *)
 Inductive mpc := M0 | M1 | M2 | M3 | M4 | MDone.
-(* Subprocess.stop (called by the user's Stop/Restart, or by the monitor goroutine):
-   P0 entry (IsOn?); P1 waiting for the lock (Check + Lock), IsOn re-checked under it; P2 cmdWrapper.Stop: kill scheduled,
-   in cmd.Wait before the reap; P3 reaped, waiting for the pipes; P4 Wait returned; PDone returned. *)
-Inductive spc := P0 | P1 | P2 | P3 | P4 | PDone.
+(* Subprocess.stop (called by the user's Stop/Restart, or by the monitor goroutine) with cmdWrapper.Stop as repaired:
+   P0 entry (IsOn?); P1 waiting for the lock (Check + Lock), IsOn re-checked under it; PT lookup + SIGTERM to the direct
+   child; PK kill of the process group; P2 in cmd.Wait before the reap; P3 reaped, waiting for the pipes; P4 Wait returned;
+   PDone returned. *)
+Inductive spc := P0 | P1 | PT | PK | P2 | P3 | P4 | PDone.
 (* the user: waiting to issue the request, or (Stop/Restart) inside stop, or done *)
 Inductive upc := UIdle | UStop (p : spc) | UDone.
 (* the monitor goroutine: not started, waiting for the process context, inside stop, finished *)
 Inductive npc := NNone | NWait | NStop (p : spc) | NEnd.
-(* the kill scheduled by cmdWrapper.Stop: unarmed, armed (FindProcess + SIGTERM next), termed (group kill next), over *)
-Inductive kpc := K0 | K1 | K2 | KEnd.
 
 Record st := mkSt {
   smode : start_mode; kmode : stop_mode; prog : tree;
@@ -87,41 +86,41 @@ Record st := mkSt {
   mu : option owner;        (* Subprocess.mu (write side; readers only pass when it is free) *)
   is_running : bool; mon_on : bool;
   reaped : bool;            (* cmd.Process.Wait has returned *)
-  pipes_closed : bool;      (* the WaitDelay timer fired and closed the pipes *)
+  rw_done : bool;           (* the watcher of cmdWrapper.Run has killed the group *)
   w_done : bool;            (* os/exec's context watcher has called cmd.Cancel *)
   gk : bool;                (* ghost: the group has been killed at least once *)
   fired : bool;             (* ghost: the user has issued the stop request *)
-  mainpc : mpc; userpc : upc; monpc : npc; killpc : kpc }.
+  mainpc : mpc; userpc : upc; monpc : npc }.
 
 Definition init (sm : start_mode) (km : stop_mode) (t : tree) : st :=
-  mkSt sm km t [] false None false false false false false false false M0 UIdle NNone K0.
+  mkSt sm km t [] false None false false false false false false false M0 UIdle NNone.
 
 Definition is_on (s : st) : bool := is_running s && mon_on s.   (* executor.go:191 *)
 Definition executes (s : st) : bool := match smode s with SStart => false | _ => true end.
 Definition cancels (s : st) : bool := match kmode s with KRestart => false | _ => true end. (* stop(cancel) *)
 
-Inductive label := LMain | LUser | LMon | LWatch | LDelay | LKill | LProc (i : nat).
+Inductive label := LMain | LUser | LMon | LWatch | LRunWatch | LProc (i : nat).
 
 Definition mu_free (s : st) : bool := match mu s with None => true | _ => false end.
-Definition pipes_free (s : st) : bool := no_holder (tbl s) || pipes_closed s.
+(* no WaitDelay: Wait returns only when nobody alive holds the output pipes *)
+Definition pipes_free (s : st) : bool := no_holder (tbl s).
 
 (* record update helpers *)
-Definition with_tbl s tb := mkSt (smode s) (kmode s) (prog s) tb (ctx_done s) (mu s) (is_running s) (mon_on s) (reaped s) (pipes_closed s) (w_done s) (gk s) (fired s) (mainpc s) (userpc s) (monpc s) (killpc s).
-Definition with_gkill s := mkSt (smode s) (kmode s) (prog s) (kill_group (tbl s)) (ctx_done s) (mu s) (is_running s) (mon_on s) (reaped s) (pipes_closed s) (w_done s) true (fired s) (mainpc s) (userpc s) (monpc s) (killpc s).
-Definition with_ctx s b := mkSt (smode s) (kmode s) (prog s) (tbl s) b (mu s) (is_running s) (mon_on s) (reaped s) (pipes_closed s) (w_done s) (gk s) (fired s) (mainpc s) (userpc s) (monpc s) (killpc s).
-Definition with_mu s m := mkSt (smode s) (kmode s) (prog s) (tbl s) (ctx_done s) m (is_running s) (mon_on s) (reaped s) (pipes_closed s) (w_done s) (gk s) (fired s) (mainpc s) (userpc s) (monpc s) (killpc s).
-Definition with_running s b := mkSt (smode s) (kmode s) (prog s) (tbl s) (ctx_done s) (mu s) b (mon_on s) (reaped s) (pipes_closed s) (w_done s) (gk s) (fired s) (mainpc s) (userpc s) (monpc s) (killpc s).
-Definition with_mon_on s b := mkSt (smode s) (kmode s) (prog s) (tbl s) (ctx_done s) (mu s) (is_running s) b (reaped s) (pipes_closed s) (w_done s) (gk s) (fired s) (mainpc s) (userpc s) (monpc s) (killpc s).
-Definition with_reaped s := mkSt (smode s) (kmode s) (prog s) (tbl s) (ctx_done s) (mu s) (is_running s) (mon_on s) true (pipes_closed s) (w_done s) (gk s) (fired s) (mainpc s) (userpc s) (monpc s) (killpc s).
-Definition with_closed s := mkSt (smode s) (kmode s) (prog s) (tbl s) (ctx_done s) (mu s) (is_running s) (mon_on s) (reaped s) true (w_done s) (gk s) (fired s) (mainpc s) (userpc s) (monpc s) (killpc s).
-Definition with_wdone s := mkSt (smode s) (kmode s) (prog s) (tbl s) (ctx_done s) (mu s) (is_running s) (mon_on s) (reaped s) (pipes_closed s) true (gk s) (fired s) (mainpc s) (userpc s) (monpc s) (killpc s).
-Definition with_fired s := mkSt (smode s) (kmode s) (prog s) (tbl s) (ctx_done s) (mu s) (is_running s) (mon_on s) (reaped s) (pipes_closed s) (w_done s) (gk s) true (mainpc s) (userpc s) (monpc s) (killpc s).
-Definition with_main s p := mkSt (smode s) (kmode s) (prog s) (tbl s) (ctx_done s) (mu s) (is_running s) (mon_on s) (reaped s) (pipes_closed s) (w_done s) (gk s) (fired s) p (userpc s) (monpc s) (killpc s).
-Definition with_user s p := mkSt (smode s) (kmode s) (prog s) (tbl s) (ctx_done s) (mu s) (is_running s) (mon_on s) (reaped s) (pipes_closed s) (w_done s) (gk s) (fired s) (mainpc s) p (monpc s) (killpc s).
-Definition with_mon s p := mkSt (smode s) (kmode s) (prog s) (tbl s) (ctx_done s) (mu s) (is_running s) (mon_on s) (reaped s) (pipes_closed s) (w_done s) (gk s) (fired s) (mainpc s) (userpc s) p (killpc s).
-Definition with_kill s p := mkSt (smode s) (kmode s) (prog s) (tbl s) (ctx_done s) (mu s) (is_running s) (mon_on s) (reaped s) (pipes_closed s) (w_done s) (gk s) (fired s) (mainpc s) (userpc s) (monpc s) p.
+Definition with_tbl s v := mkSt (smode s) (kmode s) (prog s) v (ctx_done s) (mu s) (is_running s) (mon_on s) (reaped s) (rw_done s) (w_done s) (gk s) (fired s) (mainpc s) (userpc s) (monpc s).
+Definition with_gkill s := mkSt (smode s) (kmode s) (prog s) (kill_group (tbl s)) (ctx_done s) (mu s) (is_running s) (mon_on s) (reaped s) (rw_done s) (w_done s) true (fired s) (mainpc s) (userpc s) (monpc s).
+Definition with_ctx s v := mkSt (smode s) (kmode s) (prog s) (tbl s) v (mu s) (is_running s) (mon_on s) (reaped s) (rw_done s) (w_done s) (gk s) (fired s) (mainpc s) (userpc s) (monpc s).
+Definition with_mu s v := mkSt (smode s) (kmode s) (prog s) (tbl s) (ctx_done s) v (is_running s) (mon_on s) (reaped s) (rw_done s) (w_done s) (gk s) (fired s) (mainpc s) (userpc s) (monpc s).
+Definition with_running s v := mkSt (smode s) (kmode s) (prog s) (tbl s) (ctx_done s) (mu s) v (mon_on s) (reaped s) (rw_done s) (w_done s) (gk s) (fired s) (mainpc s) (userpc s) (monpc s).
+Definition with_mon_on s v := mkSt (smode s) (kmode s) (prog s) (tbl s) (ctx_done s) (mu s) (is_running s) v (reaped s) (rw_done s) (w_done s) (gk s) (fired s) (mainpc s) (userpc s) (monpc s).
+Definition with_reaped s := mkSt (smode s) (kmode s) (prog s) (tbl s) (ctx_done s) (mu s) (is_running s) (mon_on s) true (rw_done s) (w_done s) (gk s) (fired s) (mainpc s) (userpc s) (monpc s).
+Definition with_rwdone s := mkSt (smode s) (kmode s) (prog s) (tbl s) (ctx_done s) (mu s) (is_running s) (mon_on s) (reaped s) true (w_done s) (gk s) (fired s) (mainpc s) (userpc s) (monpc s).
+Definition with_wdone s := mkSt (smode s) (kmode s) (prog s) (tbl s) (ctx_done s) (mu s) (is_running s) (mon_on s) (reaped s) (rw_done s) true (gk s) (fired s) (mainpc s) (userpc s) (monpc s).
+Definition with_fired s := mkSt (smode s) (kmode s) (prog s) (tbl s) (ctx_done s) (mu s) (is_running s) (mon_on s) (reaped s) (rw_done s) (w_done s) (gk s) true (mainpc s) (userpc s) (monpc s).
+Definition with_main s v := mkSt (smode s) (kmode s) (prog s) (tbl s) (ctx_done s) (mu s) (is_running s) (mon_on s) (reaped s) (rw_done s) (w_done s) (gk s) (fired s) v (userpc s) (monpc s).
+Definition with_user s v := mkSt (smode s) (kmode s) (prog s) (tbl s) (ctx_done s) (mu s) (is_running s) (mon_on s) (reaped s) (rw_done s) (w_done s) (gk s) (fired s) (mainpc s) v (monpc s).
+Definition with_mon s v := mkSt (smode s) (kmode s) (prog s) (tbl s) (ctx_done s) (mu s) (is_running s) (mon_on s) (reaped s) (rw_done s) (w_done s) (gk s) (fired s) (mainpc s) (userpc s) v.
 
-(* Start :197-232 / Execute :240-262 (+ cmdWrapper.Run :53-72 as repaired: group kill when the context is done) *)
+(* Start :197-232 / Execute :240-262 (+ cmdWrapper.Run: Start; watcher; Wait) *)
 Definition main_step (s : st) : option st :=
   match mainpc s with
   | M0 => if mu_free s then Some (with_main (with_mu s (Some OMain)) M1) else None
@@ -130,24 +129,25 @@ Definition main_step (s : st) : option st :=
       if executes s then Some (with_main s1 M2) else Some (with_main (with_mu s1 None) MDone)
   | M2 => if leader_dead (tbl s) then Some (with_main (with_reaped s) M3) else None
   | M3 => if pipes_free s then Some (with_main s M4) else None
-  | M4 => (* Run: if ctx.Err() != nil { killProcessGroup };  Execute: isRunning = false; Unlock; deferred Cancel *)
-      let s1 := if ctx_done s then with_gkill s else s in
-      Some (with_main (with_ctx (with_mu (with_running s1 false) None) true) MDone)
+  | M4 => (* Execute: isRunning = false; Unlock; deferred Cancel *)
+      Some (with_main (with_ctx (with_mu (with_running s false) None) true) MDone)
   | MDone => None
   end.
 
-(* Subprocess.stop :292-316 with cmdWrapper.Stop :74-101 (as repaired: group kill after Wait), run by [who].
+(* Subprocess.stop :292-316 with cmdWrapper.Stop (as repaired: kill the tree, then the group by id, then Wait), run by [who].
    [set] stores the new pc of the calling thread. *)
 Definition stop_step (who : owner) (cancel : bool) (p : spc) (set : st -> spc -> st) (s : st) : option st :=
   match p with
   | P0 => if is_on s then Some (set s P1) else Some (set s PDone)
   | P1 => if mu_free s then
-            if is_on s then Some (set (with_kill (with_mu s (Some who)) K1) P2)
+            if is_on s then Some (set (with_mu s (Some who)) PT)
             else Some (set (with_ctx s (ctx_done s || cancel)) PDone)
           else None
+  | PT => Some (set (with_tbl s (term_leader (tbl s))) PK)      (* FindProcess + KillWithChildren: SIGTERM first *)
+  | PK => Some (set (with_gkill s) P2)                          (* ... group kill; killProcessGroup(pid) in any case *)
   | P2 => if leader_dead (tbl s) then Some (set (with_reaped s) P3) else None
   | P3 => if pipes_free s then Some (set s P4) else None
-  | P4 => Some (set (with_kill (with_ctx (with_mu (with_running (with_gkill s) false) None) (ctx_done s || cancel)) KEnd) PDone)
+  | P4 => Some (set (with_ctx (with_mu (with_running s false) None) (ctx_done s || cancel)) PDone)
   | PDone => None
   end.
 
@@ -178,20 +178,15 @@ Definition mon_step (s : st) : option st :=
 
 (* os/exec watchCtx with the repaired cmd.Cancel: runs once the context is done, unless Wait has already seen the child exit *)
 Definition watch_step (s : st) : option st :=
-  match tbl s with
-  | [] => None
+  match mainpc s with
+  | M0 | M1 => None   (* the watcher goroutine is created by cmd.Start *)
   | _ => if ctx_done s && negb (reaped s) && negb (w_done s) then Some (with_wdone (with_gkill s)) else None
   end.
 
-(* WaitDelay: armed by the watcher after Cancel, or by Wait once the child has exited *)
-Definition delay_step (s : st) : option st :=
-  if negb (pipes_closed s) && (w_done s || reaped s) then Some (with_closed s) else None.
-
-(* the kill scheduled by cmdWrapper.Stop (it cannot run once Stop has returned: its context is cancelled, P4 sets KEnd) *)
-Definition kill_step (s : st) : option st :=
-  match killpc s with
-  | K1 => Some (with_kill (if reaped s then s else with_tbl s (term_leader (tbl s))) K2)
-  | K2 => Some (with_kill (with_gkill s) KEnd)
+(* the watcher of cmdWrapper.Run: from cmd.Start until cmd.Wait has returned, kills the group when the context ends *)
+Definition runwatch_step (s : st) : option st :=
+  match mainpc s with
+  | M2 | M3 => if ctx_done s && negb (rw_done s) then Some (with_rwdone (with_gkill s)) else None
   | _ => None
   end.
 
@@ -201,7 +196,7 @@ Definition proc_step (i : nat) (s : st) : option st :=
 Definition step (s : st) (l : label) : option st :=
   match l with
   | LMain => main_step s | LUser => user_step s | LMon => mon_step s | LWatch => watch_step s
-  | LDelay => delay_step s | LKill => kill_step s | LProc i => proc_step i s
+  | LRunWatch => runwatch_step s | LProc i => proc_step i s
   end.
 
 (* a schedule is any list of labels; choosing a disabled thread is a no-op *)
@@ -231,13 +226,23 @@ Definition supported (sm : start_mode) (km : stop_mode) : bool :=
   | _, _ => true
   end.
 
+
+(* No process that has left the group (setsid, or a descendant of such a process) holds the inherited output pipes.
+   [ok h g t]: t started by a parent that holds the pipes iff h and is in the group iff g. *)
+Fixpoint ok (h g : bool) (t : tree) : bool :=
+  match t with T _ pipe away _ kids =>
+    let h' := h && pipe in let g' := g && negb away in
+    implb h' g' && forallb (ok h' g') kids end.
+Definition no_outside_holder (t : tree) : bool :=
+  match t with T _ _ _ _ kids => forallb (ok true true) kids end.
+
 (* ---------- correspondence ---------- *)
 Fixpoint tree_size (t : tree) : nat :=
   match t with T _ _ _ _ kids => S ((fix go (l : list tree) := match l with [] => 0 | k :: r => tree_size k + go r end) kids) end.
 
 (* canonical schedule: start, let the tree spawn k processes' worth of steps, issue the stop, then round-robin over every thread *)
 Definition round (n : nat) : list label :=
-  [LUser; LWatch; LKill; LMon; LMain; LDelay] ++ map LProc (seq 0 n).
+  [LUser; LWatch; LRunWatch; LMon; LMain] ++ map LProc (seq 0 n).
 Fixpoint repeat_sched (r : list label) (k : nat) : list label :=
   match k with O => [] | S j => r ++ repeat_sched r j end.
 Definition canonical (t : tree) (k : nat) : list label :=
@@ -248,6 +253,9 @@ Record case := mkCase {
   c_tree : tree; c_start : start_mode; c_stop : stop_mode; c_spawned : nat;
   c_returned : bool; c_survivors : nat; c_ison : bool }.
 
+(* the set of surviving in-group processes is compared by emptiness (its size depends on how far the tree got) *)
+Definition surv_ok (a b : nat) : bool := Nat.eqb a b || (negb (Nat.eqb a 0) && negb (Nat.eqb b 0)).
+
 Definition check_case (c : case) : bool :=
   let s := run (init (c_start c) (c_stop c) (c_tree c)) (canonical (c_tree c) (c_spawned c)) in
-  Bool.eqb (call_returned s) (c_returned c) && Nat.eqb (survivors (tbl s)) (c_survivors c) && Bool.eqb (is_on s) (c_ison c).
+  Bool.eqb (call_returned s) (c_returned c) && surv_ok (survivors (tbl s)) (c_survivors c) && Bool.eqb (is_on s) (c_ison c).
